@@ -315,6 +315,7 @@ static unsigned bt_registered, bt_finished; /* bit masks (<= 32 threads) */
 static uint64_t bt_rng;
 static unsigned bt_weight[32];
 static unsigned long long bt_switches;
+static unsigned long long bt_last_run[32]; /* switch count at which each thread last held the baton */
 
 static uint64_t bt_next(void)
 {
@@ -332,6 +333,10 @@ static int bt_pick(void)
 	for(unsigned i = 0; i < 32; ++i)
 		if(live & (1U << i))
 			tot += bt_weight[i];
+	/* bounded starvation: optimism is unbounded in the core, a thread that never runs lets the others speculate (and allocate) forever */
+	for(unsigned i = 0; i < 32; ++i)
+		if((live & (1U << i)) && bt_switches - bt_last_run[i] > 400)
+			return (int)i;
 	unsigned r = (unsigned)(bt_next() % tot);
 	for(unsigned i = 0; i < 32; ++i)
 		if(live & (1U << i)) {
@@ -349,7 +354,7 @@ static void baton_enter(void)
 	if(!bt_rng) {
 		bt_rng = vh_cfg.perturb_seed * 0x9E3779B97F4A7C15ULL + 77;
 		for(unsigned i = 0; i < 32; ++i) { /* some threads are picked 1/16 as often as others: long stalls */
-			static const unsigned w[] = {16, 16, 8, 4, 16, 2, 16, 1};
+			static const unsigned w[] = {16, 16, 8, 4, 16, 2, 16, 2};
 			bt_weight[i] = w[bt_next() % 8];
 		}
 	}
@@ -369,6 +374,7 @@ static void baton_yield(unsigned one_in)
 		int n = bt_pick();
 		if(n >= 0 && n != (int)rid) {
 			bt_switches++;
+			bt_last_run[n] = bt_switches;
 			bt_holder = n;
 			pthread_cond_broadcast(&bt_cv);
 			while(bt_holder != (int)rid)
